@@ -17,9 +17,9 @@ CLAIMS = {
  "C18": dict(text="chknorm is exact: for every list of coefficients with |x| < 2^30 (superset of the reduce32 range), every position and every bound B <= (q-1)/8 the check returns 1 iff some |x| >= B, no overflow; B > (q-1)/8 always fails; vector wrappers; all bounds of the six sets are in range. Tie: 256 positions x boundary values x all bounds, expected value computed independently.",
              note="The abs trick a - ((a>>31) & 2a) is proved from the two's-complement encoding of & on i32.",
              tech="Lean 4 proof (list induction + omega) + enumerated differential tie", ref="5/C18"),
- "C16": dict(text="Proved on the faithful i32/u8 model, for all in-range inputs and with no overflow: standard sizes of every container; whole-polynomial round trips unpack(pack(p)) = p for t1 (10 bit), t0 (13 bit), eta=2 (3 bit), eta=4 (4 bit), z gamma1=2^17 (18 bit) and 2^19 (20 bit); per-parameter-set codec selection. Model, code and an independent Python BitPack/SimpleBitPack/HintBitPack agree on every codec and container of the 6 copies (extreme, random, malformed inputs, dirty output buffers, crafted hint sections with bad counters/orders).",
-             note="PARTIAL: the hint-section round trip, w1 packing = SimpleBitPack and byte-level equality with the FIPS 204 bit-string definition are not theorems; they rest on the differential tie against the independent Python encoder.",
-             tech="Lean 4 proof (bit ops -> arithmetic, omega, list induction) + differential tie with independent encoder", ref="5/C16"),
+ "C16": dict(text="Proved on the faithful i32/u8 model, for all in-range inputs and with no overflow: standard sizes of every container; whole-polynomial round trips unpack(pack(p)) = p for t1 (10 bit), t0 (13 bit), eta=2 (3 bit), eta=4 (4 bit), z gamma1=2^17 (18 bit) and 2^19 (20 bit); the hint section (what the packing loops write = index list, zero padding, running counters; the decoding loops return the 0/1 vector it was written from, for every vector with at most omega ones); container round trips unpack_pk(pack_pk), unpack_sk(pack_sk), unpack_sig(pack_sig) with all offsets, for all six sets. Model, code and an independent Python BitPack/SimpleBitPack/HintBitPack agree on every codec and container of the 6 copies (extreme, random, malformed inputs, dirty output buffers, crafted hint sections with bad counters/orders).",
+             note="PARTIAL: equality of the byte strings with the FIPS 204 bit-string definitions (and w1Encode = SimpleBitPack) is not a theorem; it rests on the differential tie against the independent Python encoder. Rejection of every non-canonical hint section is C03.",
+             tech="Lean 4 proof (bit ops -> arithmetic, omega, list induction over the packing/decoding loops) + differential tie with independent encoder", ref="5/C16"),
  "C19": dict(text="Every vector operation of the model is the component-wise lift (length + per-index theorems for map/zip loops), the matrix product is row-wise accumulated in order j=0.., k_decompose returns (high, low), k_pack_w1 is the concatenation. Tie: each Rust loop of the 3 polyvec modules is compared with the polynomial-level functions of the same build on vectors with pairwise different components, and with an independent HighBits/LowBits.",
              note="The model uses map/zip combinators, so the theorems are about those; the tie is what links each Rust loop (index ranges, transposition, accumulation start) to them.",
              tech="Lean 4 proof (induction over the loop combinators) + differential tie", ref="5/C19"),
@@ -41,9 +41,9 @@ CLAIMS = {
  "C07": dict(text="Proved: framing = FIPS 204 M' (absent ctx = empty), OIDs = DER of id-sha256/512 and equal to every copy's constants, ctx > 255 gives none/false without drawing randomness, framing injective (pure, pre-hash, across modes), and acceptance of one signature for two different representatives yields an explicit SHAKE-256 collision (mu-level or c~-level). Tie: API signature = raw signature of the independently built M' for ctx lengths none/0/1/2/254/255/256/257/1000 and 3 modes; all ordered framing pairs verify/reject as required, incl. same ctx||M with a different split.",
              note="'never verifies under another framing' is proved in the only form possible without a hardness assumption: as the construction of a collision.",
              tech="Lean 4 proof + multi-stage differential tie", ref="5/C07"),
- "C01": dict(text="Proved: (1) loop logic: the signing loop returns exactly the packed output of the first accepted iteration, gives up only if all iterations within the fuel were rejected; (2) completeness of an iteration (C01.accepted_iteration_verifies), for all six sets, every key satisfying the key-generation facts of C04.keygen_relation and every mu, rho', nonce: an accepted iteration emits the packing of (c~, z, h) with c~ = H(mu || w1Encode(w1)) and |z| < gamma1 - beta, and the verifier's reconstruction (A z - c t1 2^13, UseHint, w1Encode) on it succeeds without overflow and returns exactly w1Encode(w1) - proved through every arithmetic step of the checked-semantics model (NTT, Montgomery products, lazy reductions, Decompose, MakeHint/UseHint) with its range analysis. NOT proved: that unpack_sig/unpack_pk/unpack_sk invert the packing of hints and containers (z, t1, t0, eta round trips are proved in C16), and termination (a statement about SHAKE outputs): partial. Tie: sign-then-verify through every entry point (raw/API, deterministic, hedged/randomized with the real RNG, contexts 0..255, SHA-256/512 pre-hash, seeded/unseeded keys, block-straddling message lengths), exact length.",
-             note="PARTIAL: the byte-level glue (hint section and container round trips) and termination are observed on the explored inputs, not proved.",
-             tech="Lean 4 proof (loop invariant; ring semantics of the model in Z/q, range analysis by omega) + sign/verify differential tie", ref="5/C01"),
+ "C01": dict(text="Proved about the executable model of the whole crate, for all six parameter sets (C01.sign_then_verify and the ML-DSA/Dilithium entry-point corollaries): for every seed (explicit or drawn from the RNG tape), every message of any length, every context of at most 255 bytes or absent, pure / SHA-256 / SHA-512 pre-hash, deterministic or hedged/randomized signing with any RNG tape: if keypair returned (pk, sk) and signing under sk returned a signature, then verification under pk, the same message, context and mode returns true without fault, and the signature has exactly SIGNBYTES bytes. The proof follows the code step by step on the checked-semantics model: key relation t1 2^13 + t0 = A s1 + s2 (C04), NTT semantics (C13), Montgomery/reduction ranges (C14), Decompose/MakeHint/UseHint (C15), norm checks (C18), bit-packing and hint-section round trips (C16), sponge facts (C12), loop logic. NOT proved: termination of the signing loop (a statement about SHAKE outputs; the loop bound is a parameter of the theorem). Tie: the model is compared with the code through every entry point (raw/API, deterministic, hedged/randomized with the real RNG, contexts 0..255, SHA-256/512 pre-hash, seeded/unseeded keys, block-straddling message lengths) and sign-then-verify is observed on the code itself, exact length included.",
+             note="PARTIAL only in termination: 'signing always terminates' is observed (and bounded by the u16 nonce in the code), not proved. SHA-2 is external: the digest enters as the same parameter on both sides.",
+             tech="Lean 4 proof (end-to-end functional correctness of the model: ring semantics in Z/q, range analysis, codec round trips) + sign/verify differential tie", ref="5/C01"),
  "C02": dict(text="Proved: length gate (every truncation/extension is false without decoding), message/context/mode/hash binding and key binding with an explicit SHAKE-256 collision as conclusion. Not provable (SUF-CMA): rejection of a different (c~,z,h) - covered by the exhaustive single-bit-flip scan per sampled signature (all 8*SIGNBYTES flips, all truncations, all message bit flips/prefixes) on both builds.",
              note="PARTIAL by nature: signature-bit flips rest on observation; binding theorems conclude collisions, they do not assume collision resistance.",
              tech="Lean 4 proof (collision-extraction) + exhaustive alteration scans on the implementation", ref="5/C02"),
